@@ -105,22 +105,28 @@ def _partial(pid, what, sec):
 
 
 CLAIMS.update({
-    "C02": _partial("C02", "a block is the concatenation in source order of its statements, each exactly once, within one call", 2),
+    "C02": _partial("C02", "a block is the concatenation in source order of its statements, each exactly once, within one call; "
+                    "ADDITIONALLY PROVED for all schedules (RefProgress.v): every accepted completion is delivered into exactly the "
+                    "waiting service of the state tree (the awaited list is a permutation of the tree's waiting services, "
+                    "C02p_accepted_completion_is_delivered / _is_consumed): no wake-up is lost", 2),
     "C03": _partial("C03", "all branches of a Parallel are started in the same call in source order and what follows comes after the last branch's task-finished", 3),
     "C04": _partial("C04", "the guard's variables are queried in the enclosing task instance, the decision is decide (= arithmetic truth value, C13) and exactly the selected branch follows", 4),
     "C05": _partial("C05", "a counting loop runs its body for k = 0,1,... while k < limit (limit read before each test), a while loop once per true evaluation of its guard, evaluated before every iteration", 5),
     "C06": _partial("C06", "the limit is read once when the loop is reached and exactly N instances are started in that call, instance i with the counting variable bound to i", 6),
     "C15": _partial("C15", "every notification carries the call site's parameters in source order with loop indices replaced by the iteration / instance number", 15),
     "C07": dict(
-        text="PARTIAL. Proved on the reference semantics for all programs and valuations: under the fully re-entrant schedule the "
-             "notifications are exactly TS . body . TF per task and SS . SF per service, properly nested, production task first "
-             "and last (C07_sync_partial); in every history started/finished service notifications balance exactly when the "
-             "order completes and the production task finishes once, last, in the delivering call (C01); identifiers are never "
-             "reused (C07_fresh_identifiers). Not proved: the full lifecycle monitor holds_C07 for arbitrary interleavings - it "
-             "is applied to every implementation trace (incl. completions sent from inside notifications) and the traces are "
-             "compared with both models. Known findings D7 and D20 are reported as KNOWN-FINDING.",
-        technique="Coq proof (denotation for the re-entrant schedule, C01 invariant, fresh-range invariant) + lifecycle "
-                  "monitor on implementation traces + differential correspondence with two executable models",
+        text="Theorem C07_reference_semantics / C07_programs (every program, value oracle, set of immediately completed "
+             "services, fuel and every script of API calls): every trace of the reference semantics satisfies the executable "
+             "lifecycle monitor holds_C07 - every task-started / service-started is matched by exactly one finished "
+             "notification with the same identifier, name, site and context; a started notification's context is open; a "
+             "task finishes only when nothing it started is open; the production task is first; service-finished is issued in "
+             "the call that delivers the completion; nothing is open when the order is final. Proved by an invariant between "
+             "the monitor state and the open instances of the state tree (up to permutation), 1500 lines. The same monitor is "
+             "applied to every implementation trace (incl. completions sent from inside notifications) and the traces are "
+             "compared with both models. Known findings D7 (parallel-loop shapes) and D20 (completion sent from inside a "
+             "finished notification) are reported as KNOWN-FINDING.",
+        technique="Coq proof (monitor / state-tree invariant by mutual induction over the interpreter and induction over "
+                  "scripts) + lifecycle monitor on implementation traces + differential correspondence with two executable models",
         design_ref="DESIGN.md §9 C07", note=RUN_NOTE),
 })
 
@@ -141,7 +147,10 @@ CLAIMS.update({
                   "obligations) + differential correspondence on generated texts and layouts",
         design_ref="DESIGN.md §9 C12, docs/front_component.md"),
     "C18": dict(
-        text="PARTIAL. Proved on the reference semantics (all programs and interleaved histories): two scheduler instances driven "
+        text="PARTIAL. Proved on the reference semantics: attaching / detaching observers and registering additional functions "
+             "changes nothing but the observers' / functions' own entries - the run without them succeeds with exactly the "
+             "erased trace, for every program and history (C18_observers_do_not_influence, C18_extra_listeners_do_not_influence, "
+             "two-run simulation in RefObs.v); two scheduler instances driven "
              "by one interleaved history behave exactly like the two driven separately (C18_two_schedulers_independent_partial); "
              "the models are functions of the case, so repeating a run reproduces it. State shared through the Python runtime "
              "(class / module attributes, mutable defaults), text vs file path, drawing, identifier mode and observers cannot be "
